@@ -304,7 +304,7 @@ fn main() {
     // one spill-sized comb in every tier: ~300 heads whose fork points all stay pending in the
     // convergence map at once (> 256 = one block), so spilled blocks must be found again
     {
-        let d = comb_dag(&mut rng, 300, 0, false, 7);
+        let d = comb_dag(&mut rng, 300, 2, false, 7);
         let cmds = realize(&d, args.seed.wrapping_mul(1_000_003).wrapping_add(77));
         rec.begin_case();
         rec.count("shape:comb-300-heads");
